@@ -36,6 +36,10 @@ st = _State()
 class ReplayExhausted(Exception):
     """The recorded decision list is shorter than what the harness draws."""
 
+    def __init__(self, index, kind='flip', lo=None, hi=None):
+        Exception.__init__(self, index, kind, lo, hi)
+        self.index = index; self.kind = kind; self.lo = lo; self.hi = hi
+
 
 def begin_path(prefix=(), replay=None):
     st.n = 0
@@ -126,21 +130,16 @@ def sym_int(lo, hi, tag='i'):
     st.n += 1
     if MODE != 'symbolic':
         if st.replay is None or i >= len(st.replay):
-            raise ReplayExhausted(i)
+            raise ReplayExhausted(i, 'int', lo, hi)
         v = int(st.replay[i])
         st.trace.append(('int', v))
         return v
     proxy_for_type, realize, NoTracing, context_statespace = _crosshair()
-    import z3
+    from crosshair.libimpl.builtinslib import SymbolicBoundedInt
     with NoTracing():
-        x = proxy_for_type(int, '%s%d' % (tag, i))
-        space = context_statespace()
-        if lo is not None and hi is not None:
-            space.add(z3.And(x.var >= lo, x.var <= hi))
-        elif lo is not None:
-            space.add(x.var >= lo)
-        elif hi is not None:
-            space.add(x.var <= hi)
+        # built directly (not proxy_for_type): CrossHair's factory may *prematurely realise* an int
+        # it saw realised on earlier paths, which would silently turn the symbolic into a sample
+        x = SymbolicBoundedInt('%s%d' % (tag, i), int, lo, hi)
     st.trace.append(('int', x))
     return x
 
